@@ -41,6 +41,8 @@ type pnSpec struct {
 	dc    *time.Time
 	tags  string
 	dates []time.Time
+	// dead[i]: the i-th claim is deleted (recomputed by wspec.recomputeDead after every delete claim)
+	dead []bool
 	// presentations ("" or "@<zone>[f<k>]"): how the instants are spelled in the blobs
 	dcP    string
 	datesP []string
@@ -75,7 +77,10 @@ func (p *pnSpec) op() string {
 // times of the spec, computed by the harness independently of the corpus (oracle side)
 func (p *pnSpec) modtime() (time.Time, bool) {
 	var t time.Time
-	for _, d := range p.dates {
+	for i, d := range p.dates {
+		if i < len(p.dead) && p.dead[i] {
+			continue // a deleted claim does not count (Corpus.PermanodeModtime)
+		}
 		if d.After(t) {
 			t = d
 		}
@@ -177,9 +182,13 @@ func (g *gen) pool(kind string) []time.Time {
 var poolKindsInRange = []string{"one", "modern", "subsec", "pre1970", "epoch", "edge64in", "mixed", "distinct", "zonetie"}
 var poolKindsOut = []string{"edge64out", "far"}
 
+// delSpec is a delete claim: it targets claim ci of permanode pn (dj < 0) or the dj-th delete claim.
+type delSpec struct{ pn, ci, dj int }
+
 type wspec struct {
 	kind string
 	pns  []*pnSpec
+	dels []delSpec
 	zp   int // chance (%) that an instant of this world is spelled with a zone offset / fractional zeros
 }
 
@@ -708,6 +717,10 @@ func (g *gen) runWorld(kind string, n int, limits []int, aroundLimits []int) {
 			}
 		}
 	}
+	// delete claims that reach the corpus BEFORE its sorted permanode lists are first used
+	if !g.deletePhase(ws, "before-first-query", 22) {
+		return
+	}
 	prefixConss := func() []string {
 		// and(Permanode{}, BlobRefPrefix): a one-hex-digit prefix shared by some permanodes, and one full ref
 		p := ws.pns[rnd.Intn(len(ws.pns))].ref.String()
@@ -737,6 +750,14 @@ func (g *gen) runWorld(kind string, n int, limits []int, aroundLimits []int) {
 			r.Hit("content:late-file-changed-created-order")
 		}
 		round([]string{"all", "a", "y"}, limits[:3], aroundLimits[1:2])
+	}
+	// delete claims (and deletes of deletes) that arrive LATE: the sorted lists have been built and used
+	nd := len(ws.dels)
+	if !g.deletePhase(ws, "late-after-query", 25) {
+		return
+	}
+	if len(ws.dels) > nd {
+		round([]string{"all", "a", "y"}, limits, aroundLimits[1:3])
 	}
 	// the corpus grows between queries: the sorted-permanode caches of the corpus must be rebuilt
 	if g.r.R.Chance(50) {
@@ -768,6 +789,104 @@ func (g *gen) expectTimes(op string, p *pnSpec) bool {
 	if want := "ok " + showTime(at, aok) + " " + showTime(mt, mok); out != want {
 		g.r.Fail("world-times", "corpus times differ from the claims / file uploaded: "+op, want, out, g.r.CaseOps())
 		return false
+	}
+	return true
+}
+
+// delDeleted / recomputeDead: the oracle's own reading of Corpus.IsDeleted – something is deleted when one
+// of the delete claims targeting it is not itself deleted.
+func (ws *wspec) delDeleted(j int) bool {
+	for k := j + 1; k < len(ws.dels); k++ {
+		if ws.dels[k].dj == j && !ws.delDeleted(k) {
+			return true
+		}
+	}
+	return false
+}
+
+func (ws *wspec) recomputeDead() {
+	for _, p := range ws.pns {
+		p.dead = make([]bool, len(p.dates))
+	}
+	for k, d := range ws.dels {
+		if d.dj < 0 && !ws.delDeleted(k) {
+			ws.pns[d.pn].dead[d.ci] = true
+		}
+	}
+}
+
+// deletePhase issues delete claims that target CLAIMS – the newest, the oldest, the only one or any claim of
+// a permanode – and deletes of such deletes (and of those), and checks the times the corpus then reports.
+func (g *gen) deletePhase(ws *wspec, when string, chance int) bool {
+	r, rnd := g.r, g.r.R
+	base := time.Unix(1322443956, 0).UTC()
+	date := func() string {
+		d := base.Add(time.Duration(rnd.Intn(1000)) * time.Millisecond)
+		return Nanos(d) + g.present(d, ws.zp)
+	}
+	beforeM := join(ws.expectedFull("m", "all"))
+	beforeC := join(ws.expectedFull("c", "all"))
+	n := 0
+	root := func(k int) int {
+		for ws.dels[k].dj >= 0 {
+			k = ws.dels[k].dj
+		}
+		return ws.dels[k].pn
+	}
+	for i, p := range ws.pns {
+		if len(p.dates) == 0 || !rnd.Chance(chance) {
+			continue
+		}
+		newest, oldest := 0, 0
+		for ci, d := range p.dates {
+			if !d.Before(p.dates[newest]) {
+				newest = ci
+			}
+			if d.Before(p.dates[oldest]) {
+				oldest = ci
+			}
+		}
+		ci, what := newest, "newest-claim"
+		switch rnd.Intn(5) {
+		case 0:
+			ci, what = oldest, "oldest-claim"
+		case 1:
+			ci, what = rnd.Intn(len(p.dates)), "any-claim"
+		}
+		if len(p.dates) == 1 {
+			what = "only-claim"
+		}
+		mt0, _ := p.modtime()
+		ws.dels = append(ws.dels, delSpec{pn: i, ci: ci, dj: -1})
+		ws.recomputeDead()
+		if !g.expectTimes(fmt.Sprintf("del %d %d %s", i, ci, date()), p) {
+			return false
+		}
+		r.Hit("delete:" + what + "-" + when)
+		if mt1, _ := p.modtime(); !mt1.Equal(mt0) {
+			r.Hit("delete:changed-modtime")
+		}
+		n++
+	}
+	// deletes of earlier deletes: the target comes back (or goes again, for a delete of a delete of a delete)
+	for j := range ws.dels {
+		if rnd.Chance(chance / 2) {
+			ws.dels = append(ws.dels, delSpec{dj: j})
+			ws.recomputeDead()
+			if !g.expectTimes(fmt.Sprintf("deld %d %s", j, date()), ws.pns[root(j)]) {
+				return false
+			}
+			r.Hit("delete:of-a-delete-" + when)
+			n++
+		}
+	}
+	if n > 0 {
+		if join(ws.expectedFull("m", "all")) != beforeM {
+			r.Hit("delete:changed-lastmod-order-" + when)
+		}
+		if join(ws.expectedFull("c", "all")) != beforeC {
+			r.Hit("delete:changed-created-order-" + when)
+		}
 	}
 	return true
 }
@@ -986,7 +1105,7 @@ func mix64(z uint64) uint64 {
 // Run is the generator + oracle of C09.
 func Run(r *hk.Run) {
 	g := &gen{r: r, ex: nil}
-	r.Res.Rule = "one case = one world (real index+corpus) of n planned permanodes whose dateCreated / claim dates are drawn from a small pool of instants (kinds: one, modern, subsec, pre1970, epoch, edge64in, mixed, distinct, zonetie = one instant shared by 2..20 permanodes with 0..3 newer/older ones around; and outside int64 nanoseconds: edge64out, far); a tie is an equal INSTANT, not an equal text: in two thirds of the worlds (and 85 % of the zonetie instants) dateCreated values, claim dates and file times are spelled with varying UTC offsets (Z, +00:00, -08:00, +05:45, +14:00 …) and forced fractional zeros (12:00:00.000Z); per world, sort (created/lastmod) and constraint (all/tag a/tag b): the limit-free query is the oracle list, every limit is followed page by page, every permanode (and one foreign ref) is used as Around pivot; constraints: Permanode{}, tag=a, tag=b, CamliType:permanode, and(tag a, tag b), camliNodeType=foo, and(camliNodeType=foo, tag a), and(Permanode{}, BlobRefPrefix one-digit / full ref) – every branch of pickCandidateSource an only-permanode constraint can reach; about half of the permanodes get a camliContent file carrying a time, whose schema blob reaches the index before the first query or LATE (after the claim and after a full round of queries), followed by another round; then permanodes are added and a last round runs; in about a third of the (sort, constraint) runs the requests are repeated by a caller that keeps ONE Go *SearchQuery/*Constraint value (paging run, restart from page 1 with another limit, Around, unpaged) – the value must come back unchanged and the answers must equal those of fresh values; the same Around pivots and limits on the sorts with an unsorted candidate source (BlobRefAsc always, CreatedAsc in worlds with pairwise distinct creation times). distinct = distinct (kind of query, sort, constraint, limit, tie/sign shape of the ordered list[, pivot position]); non-trivial = the full list is longer than the limit (at least two pages / a truncated window)"
+	r.Res.Rule = "one case = one world (real index+corpus) of n planned permanodes whose dateCreated / claim dates are drawn from a small pool of instants (kinds: one, modern, subsec, pre1970, epoch, edge64in, mixed, distinct, zonetie = one instant shared by 2..20 permanodes with 0..3 newer/older ones around; and outside int64 nanoseconds: edge64out, far); a tie is an equal INSTANT, not an equal text: in two thirds of the worlds (and 85 % of the zonetie instants) dateCreated values, claim dates and file times are spelled with varying UTC offsets (Z, +00:00, -08:00, +05:45, +14:00 …) and forced fractional zeros (12:00:00.000Z); per world, sort (created/lastmod) and constraint (all/tag a/tag b): the limit-free query is the oracle list, every limit is followed page by page, every permanode (and one foreign ref) is used as Around pivot; constraints: Permanode{}, tag=a, tag=b, CamliType:permanode, and(tag a, tag b), camliNodeType=foo, and(camliNodeType=foo, tag a), and(Permanode{}, BlobRefPrefix one-digit / full ref) – every branch of pickCandidateSource an only-permanode constraint can reach; about half of the permanodes get a camliContent file carrying a time, whose schema blob reaches the index before the first query or LATE (after the claim and after a full round of queries), followed by another round; delete claims that target CLAIMS (the newest / oldest / only / any claim of a permanode) and deletes of such deletes (and of those) arrive before the first query and late, after the sorted lists were used, each followed by a full round; then permanodes are added and a last round runs; in about a third of the (sort, constraint) runs the requests are repeated by a caller that keeps ONE Go *SearchQuery/*Constraint value (paging run, restart from page 1 with another limit, Around, unpaged) – the value must come back unchanged and the answers must equal those of fresh values; the same Around pivots and limits on the sorts with an unsorted candidate source (BlobRefAsc always, CreatedAsc in worlds with pairwise distinct creation times). distinct = distinct (kind of query, sort, constraint, limit, tie/sign shape of the ordered list[, pivot position]); non-trivial = the full list is longer than the limit (at least two pages / a truncated window)"
 	// hk.NewRand(seed) makes consecutive seeds offsets (by one draw) of the same stream, and a generator
 	// with data-dependent draw counts re-synchronises them: decorrelate the seeds first
 	r.R = hk.NewRand(mix64(r.Res.Seed))
